@@ -199,6 +199,15 @@ class Folder:
         #: class names of the analysed program that the caller models by own Python classes: name -> constructor
         self.ctors: Dict[str, Any] = {}
 
+    def _bind_target(self, t: ast.AST, v) -> None:
+        if isinstance(t, ast.Name):
+            self.names[t.id] = v
+        elif isinstance(t, (ast.Tuple, ast.List)) and isinstance(v, list) and len(v) == len(t.elts):
+            for e, x in zip(t.elts, v):
+                self._bind_target(e, x)
+        else:
+            raise Unfoldable("comprehension target")
+
     def _peek(self, node: ast.AST):
         try:
             return self.fold(node)
@@ -220,6 +229,23 @@ class Folder:
                     out.extend(t)
                 else:
                     out.append(self.fold(e))
+            return out
+        if isinstance(node, (ast.ListComp, ast.GeneratorExp)) and len(node.generators) == 1 and not node.generators[0].is_async:
+            g = node.generators[0]
+            seq = self.fold(g.iter)
+            if isinstance(seq, (set, frozenset)):
+                seq = list(seq)
+            if not isinstance(seq, (list, str)):
+                raise Unfoldable("comprehension over a non-sequence")
+            out = PySeq()
+            saved = dict(self.names)
+            try:
+                for item in seq:
+                    self._bind_target(g.target, item)
+                    if all(truth(self.fold(c)) for c in g.ifs):
+                        out.append(self.fold(node.elt))
+            finally:
+                self.names = saved
             return out
         if isinstance(node, ast.JoinedStr):
             out = ""
@@ -284,6 +310,11 @@ class Folder:
                     dims.append(len(v))
                     v = v[0] if v else None
                 return PySeq(dims)
+            if node.attr in ("T", "mT"):
+                v = self.fold(node.value)
+                if isinstance(v, list) and v and isinstance(v[0], list):
+                    return [[row[j] for row in v] for j in range(len(v[0]))]
+                raise Unfoldable("transpose of a non-matrix")
             if node.attr == "ndim":
                 v = self.fold(node.value)
                 d = 0
@@ -358,12 +389,19 @@ class Folder:
                     v = self.fold(e)
                     if isinstance(v, int) and not isinstance(v, bool):
                         return v
+                    if isinstance(v, list) and not isinstance(v, BoolList) and all(isinstance(t, int) and not isinstance(t, bool) for t in v):
+                        return list(v)  # a list of positions (advanced indexing along this axis)
                     raise Unfoldable("matrix index")
 
                 r, c = part(sl.elts[0]), part(sl.elts[1])
-                rows = base[r] if isinstance(r, slice) else [base[r]]
-                out = [row[c] for row in rows]
-                return out if isinstance(r, slice) else out[0]
+                if isinstance(r, list) and isinstance(c, list):
+                    raise Unfoldable("two index lists")
+                try:
+                    rows = base[r] if isinstance(r, slice) else ([base[t] for t in r] if isinstance(r, list) else [base[r]])
+                    out = [([row[t] for t in c] if isinstance(c, list) else row[c]) for row in rows]
+                except IndexError as exc:
+                    raise Unfoldable(str(exc))
+                return out if isinstance(r, (slice, list)) else out[0]
             if isinstance(sl, ast.Tuple) and len(sl.elts) == 2 and isinstance(sl.elts[0], ast.Constant) and sl.elts[0].value is Ellipsis:
                 i = self.fold(sl.elts[1])
 
@@ -391,7 +429,7 @@ class Folder:
             raise Unfoldable("subscript")
         if isinstance(node, ast.Compare) and len(node.ops) == 1 and isinstance(node.ops[0], (ast.In, ast.NotIn)):
             a, b = self.fold(node.left), self.fold(node.comparators[0])
-            if not isinstance(b, (list, str)) or isinstance(a, list):
+            if not isinstance(b, (list, str, set, frozenset)) or isinstance(a, list):
                 raise Unfoldable("membership test")
             r = a in b
             return r if isinstance(node.ops[0], ast.In) else not r
@@ -422,6 +460,14 @@ class Folder:
                 if isinstance(v, int) and not isinstance(v, bool):
                     return v.bit_length()
                 raise Unfoldable("bit_length of a non-integer")
+            if m in ("t",) and not node.args:
+                v = self.fold(node.func.value)
+                if isinstance(v, list) and v and isinstance(v[0], list):
+                    return [[row[j] for row in v] for j in range(len(v[0]))]
+                raise Unfoldable("transpose of a non-matrix")
+            if m == "tolist" and not node.args:
+                v = self.fold(node.func.value)
+                return PySeq(v) if isinstance(v, list) else v
             if m in ("to", "float", "int", "long", "double", "type", "clone", "contiguous", "item", "detach", "cpu", "cuda"):
                 return self.fold(node.func.value)
             if m == "size" and len(node.args) <= 1 and not node.keywords:
@@ -646,14 +692,21 @@ class Folder:
                 if short == "numel":
                     return len(flat(v))
                 return depth(v)
+            if short == "remainder" and len(node.args) == 2:
+                a, b = self.fold(node.args[0]), self.fold(node.args[1])
+                try:
+                    return _ew(lambda x, y: x % y, a, b)
+                except (TypeError, ZeroDivisionError) as exc:
+                    raise Unfoldable(str(exc))
             if short == "fmod" and len(node.args) == 2:
                 a, b = self.fold(node.args[0]), self.fold(node.args[1])
                 return _ew(lambda x, y: math.fmod(x, y) if isinstance(x, float) or isinstance(y, float) else (x % y if x >= 0 else -((-x) % y)), a, b)
-            if short in ("where", "nonzero") and len(node.args) == 1 and not node.keywords:
+            if short in ("where", "nonzero") and len(node.args) == 1 and all(k.arg == "as_tuple" for k in node.keywords):
                 v = self.fold(node.args[0])
+                as_tuple = any(self.fold(k.value) is True for k in node.keywords)
                 if isinstance(v, list) and not any(isinstance(x, list) for x in v):
                     idx = [i for i, t in enumerate(v) if t]
-                    return [idx] if short == "where" else [[i] for i in idx]
+                    return PySeq([idx]) if (short == "where" or as_tuple) else [[i] for i in idx]
                 raise Unfoldable(f"{short} of a matrix")
             if short in ("argmax", "argmin") and node.args and (len(node.args) == 2 or any(k.arg == "dim" for k in node.keywords)):
                 v = self.fold(node.args[0])
@@ -745,6 +798,24 @@ class Folder:
                     return sorted(v) if nm == "sorted" else [[i, x] for i, x in enumerate(v)]
                 except TypeError as exc:
                     raise Unfoldable(str(exc))
+            if nm == "set" and len(node.args) <= 1 and not node.keywords:
+                if not node.args:
+                    return set()
+                v = self.fold(node.args[0])
+                try:
+                    return set(v)
+                except TypeError as exc:
+                    raise Unfoldable(str(exc))
+            if nm in ("len", "list", "sorted", "tuple") and len(node.args) == 1 and not node.keywords:
+                v0 = self._peek(node.args[0])
+                if isinstance(v0, (set, frozenset)):
+                    # iteration order of a set is that of the interpreter running the checker (the same CPython as the library)
+                    return len(v0) if nm == "len" else PySeq(sorted(v0) if nm == "sorted" else list(v0))
+            if short == "eye" and nm.startswith("torch.") and node.args:
+                k_ = self.fold(node.args[0])
+                if isinstance(k_, int) and 0 <= k_ <= 512:
+                    return [[1 if i == j else 0 for j in range(k_)] for i in range(k_)]
+                raise Unfoldable("eye")
             if nm == "range" and 1 <= len(node.args) <= 3 and not node.keywords:
                 a = [self.fold(x) for x in node.args]
                 if all(isinstance(x, int) and not isinstance(x, bool) for x in a):
